@@ -12,9 +12,10 @@
 (* start at its first call.)                                               *)
 (*   VERDICT  the recorded behaviour contradicts the property text         *)
 (*   DRIFT    it differs from the reference in something the property does *)
-(*            not ask for (order of the non-primary keys, a NewKeyring     *)
-(*            that tolerates what the reference refuses, a rotation        *)
-(*            schedule that is not the documented procedure)               *)
+(*            not ask for (order of the non-primary keys, a result code    *)
+(*            the property does not fix, a NewKeyring that tolerates what  *)
+(*            the reference refuses, a rotation schedule that is not the   *)
+(*            documented procedure)                                        *)
 (* After the first verdict in a case the rest of that case is skipped.     *)
 (***************************************************************************)
 EXTENDS KRRef, IOUtils
@@ -39,8 +40,9 @@ SameContent(a, b) == /\ KRange(a) = KRange(b) /\ Len(a) = Len(b)
 
 \* ---- the clauses, on one recorded call: cur = ring before, post = ring after, k = the key
 C17_NoPanic(e)   == ~e.pan
-C17_Primary(e, post) ==
-  (e.ring # <<>> \/ e.prim # "") =>
+\* (judged on the call that broke the ring: not again on calls that started from a broken one)
+C17_Primary(e, cur, post) ==
+  ((e.op = "N" \/ RingOK(cur)) /\ (e.ring # <<>> \/ e.prim # "")) =>
      /\ e.ring # <<>> /\ e.ring[1] = e.prim
      /\ KNoDups(post)
      /\ \A i \in DOMAIN post : ValidLen(post[i])
@@ -49,10 +51,16 @@ C17_Remove(e, cur, post, k) ==
 C17_Use(e, cur, post, k) ==
   e.op = "U" => \/ (k \in KRange(cur) /\ post # <<>> /\ post[1] = k /\ KRange(post) = KRange(cur))
                 \/ (k \notin KRange(cur) /\ post = cur /\ e.res = "error")
+\* the ring after the call is the one the reference yields (same keys, same primary).  The
+\* result code alone is judged only where the property fixes it (C17_Remove, C17_Use);
+\* elsewhere a differing code with the right ring is drift.
 C17_Result(e, cur, post, ref) ==
-  CASE e.op = "N" -> (ref.res = "ok" => (e.res = "ok" /\ SameContent(post, ref.keys)))
-    [] e.op = "R" /\ cur = <<>> -> (e.res \in {"ok", "error"} /\ post = <<>>)
-    [] OTHER -> (e.res = ref.res /\ SameContent(post, ref.keys))
+  CASE e.op = "N" -> (ref.res = "ok" => SameContent(post, ref.keys))
+    [] OTHER -> SameContent(post, ref.keys)
+ResultCode(e, cur, ref) ==
+  CASE e.op = "N" -> (ref.res = "ok" => e.res = "ok")
+    [] e.op = "R" /\ cur = <<>> -> e.res \in {"ok", "error"}
+    [] OTHER -> e.res = ref.res
 C17_Snapshots(e) == \A i \in DOMAIN e.held : e.held[i]
 \* rotation lines: do the rings as recorded let every node reach every node?
 Reachable(R) == \A s, r \in DOMAIN R \ {"#"} : R[s] # <<>> /\ R[s][1] \in KRange(R[r])
@@ -76,7 +84,7 @@ TStep ==
                  post == Rec(e.ring, e.lens)
                  ref  == IF e.op = "N" THEN NewRef(Rec(e.nkeys, e.nlens), k) ELSE ApplyRef(e.op, cur, k)
                  R1   == (e.node :> post) @@ R
-                 c1   == C17_Primary(e, post)
+                 c1   == C17_Primary(e, cur, post)
                  c2   == C17_Remove(e, cur, post, k)
                  c3   == C17_Use(e, cur, post, k)
                  c4   == C17_Result(e, cur, post, ref)
@@ -89,6 +97,7 @@ TStep ==
                 /\ Report("VERDICT", "C17_Result", e, c4)
                 /\ Report("VERDICT", "C17_Snapshots", e, c5)
                 /\ Report("VERDICT", "C17_Rotation", e, c6)
+                /\ Report("DRIFT", "result-code", e, ~(good /\ ~ResultCode(e, cur, ref)))
                 /\ Report("DRIFT", "new-tolerates", e, ~(good /\ e.op = "N" /\ ref.res = "error" /\ e.res = "ok"))
                 /\ Report("DRIFT", "secondary-order", e,
                           ~(good /\ ref.res = "ok" /\ e.res = "ok" /\ post # ref.keys))
